@@ -59,7 +59,8 @@ def run(ctx):
         ctx.guard(c06.len_threaded, ctx, cfg, fs)
         ctx.guard(parsecon, ctx, cfg, fs)
         ctx.guard(c12.walker_rules, ctx, cfg, fs, 'R.registry', {'collect_shorts': c12.WALKERS['collect_shorts']})
-        ctx.guard(c08.keep_only, ctx, lambda: c02.registry(ctx, cfg, fs), lambda o: o.key.startswith('run_inner:'), 'R.registry')
+        ctx.guard(c08.keep_only, ctx, lambda: c02.registry(ctx, cfg, fs), lambda o: True, 'R.registry')
+        ctx.guard(c08.keep_only, ctx, lambda: c02.name_search(ctx, cfg, fs), lambda o: o.rule == 'R.registry', 'R.registry')
         ctx.guard(c08.keep_only, ctx, lambda: c02.lossless(ctx, cfg, fs), lambda o: 'parse_os_str' in o.key or o.key.startswith('value-path'), 'L.lossless')
         ctx.guard(c08.keep_only, ctx, lambda: c02.boundaries(ctx, cfg, fs), lambda o: 'width-table' in o.key or 'cluster-test' in o.key or 'byte-length' in o.key or 'value-iff-equals' in o.key, 'B.boundaries')
         import c09
